@@ -44,7 +44,7 @@ Definition init_len (ts : list token) : option nat :=
   let '(pre, r1) := take_plain ts in
   match r1 with
   | o :: r2 =>
-      if is_lbrace o && negb (Nat.eqb (length pre) 0) then
+      if is_lbrace o then
         let '(flat, r3) := take_plain r2 in
         match r3 with
         | c :: r4 =>
